@@ -24,7 +24,10 @@ RULE = (
     "2^32 rows), the three set updates, sliced, slices1d, copy, column_stack, reindexed - the operations whose cost does "
     "not depend on the row count; after every step every live index must hold exactly the model's entries (uint32, "
     "strictly increasing), shape, common value and size. Non-trivial = an append that shifts row ids beyond 2^31 plus "
-    "another kind of operation."
+    "another kind of operation. long_entries: an entry of 64..1025 (thorough 4097) consecutive or evenly spaced row "
+    "ids (a category of a sorted file) updated in place (union / difference / intersection) with row ids at block "
+    "boundaries (63/64, 255/256, 511/512, first, last), already listed or new; result compared with the array and the "
+    "C07 predicate. collapsed_wide: C19's collapsed_output cases (hundreds / 65 536 columns, rows without any common cell)."
 )
 ASSUMPTIONS = [
     "index entries handed to the library are sorted unique uint32 arrays with int coordinates",
@@ -44,4 +47,20 @@ def runner(sub, tier, seed, shard, nshards, rec):
 SUBS = [
     Sub("histories", M.replay, runner=runner, examples=EX, weight=5),
     Sub("giant", G.check, strategy=G.histories, examples={"quick": 1500, "thorough": 60000}),
+    Sub("long_entries", lambda case, rec: G.check_long_entries(case, rec), enumerate=G.enum_long_entries, exhaustive=True,
+        shards={"quick": 4, "thorough": 8}),
+    Sub("collapsed_wide", lambda case, rec: _collapsed(case, rec), strategy=lambda tier: _collapsed_cases(tier),
+        examples={"quick": 800, "thorough": 30000}, shards={"quick": 4, "thorough": 8}),
 ]
+
+
+def _collapsed(case, rec):
+    from . import c19
+
+    return c19.check_collapsed(case, rec)
+
+
+def _collapsed_cases(tier):
+    from . import c19
+
+    return c19.collapsed_cases(tier)
